@@ -5,7 +5,7 @@ from hypothesis import strategies as st
 
 from .. import build
 from ..display import FG, Grad, Solid, leaves
-from ..gen_svg import fnum
+from ..gen_svg import CSS_NAMES, fnum
 from ..ref_colr import ColrReader
 from ..ref_svg import SVGDoc
 from ..vecoracle import reach
@@ -54,6 +54,13 @@ def enumerate_cases(tier):
         for sub in itertools.combinations(range(len(both)), k):
             if sub[-1] >= n:  # at least one of the alpha-only variants
                 yield {"t": "set", "colors": [both[i] for i in sub], "perm": "rev-dup"}
+    # every CSS colour keyword once as a fill and once as a gradient stop, against PIL's table (A41)
+    names = list(CSS_NAMES)
+    for ver, kind in ((1, "solid"), (0, "solid"), (1, "stops")):
+        for at in range(0, len(names), 30):
+            chunk = names[at:at + 30]
+            yield {"t": "font", "version": ver, "flavour": "glyf", "conflict": None,
+                   "glyphs": [{"colors": [[nm, 1.0] for nm in chunk[g:g + 5]], "kind": kind} for g in range(0, len(chunk), 5)]}
 
 
 color_st = st.tuples(
@@ -117,6 +124,7 @@ def font_case(draw):
         st.tuples(st.integers(0, 255), st.integers(0, 255), st.integers(0, 255)).map(lambda c: "#%02x%02x%02x" % c),
         st.tuples(st.integers(0, 255), st.integers(0, 255), st.integers(0, 255), st.integers(1, 254)).map(lambda c: "#%02x%02x%02x%02x" % c),
         st.sampled_from(["red", "black", "blue", "#000", "#f00"]),
+        st.sampled_from(CSS_NAMES),
     )
     n = draw(st.integers(1, 4))
     glyphs = []
